@@ -336,6 +336,9 @@ type e3FinRec struct {
 }
 
 type e3Node struct {
+	// replayCh is the node's ReplayedHeaderRequest channel in C03 runs (re-made per start).
+	replayCh chan tmelink.ReplayedHeaderRequest
+
 	run *e3Run
 	idx int // base validator index
 	pub gcrypto.PubKey
@@ -720,6 +723,11 @@ func (n *e3Node) namedOpts(wctx context.Context, initCh chan tmdriver.InitChainR
 
 		{"WithWatchdog", tmengine.WithWatchdog(wd)},
 		{"WithAssertEnv", tmengine.WithAssertEnv(gasserttest.DefaultEnv())},
+	}
+	if run.cfg.Mode == "C03" && !n.fullOptionSet {
+		// a catch-up source the harness can speak through (attack kind 4)
+		n.replayCh = make(chan tmelink.ReplayedHeaderRequest)
+		out = append(out, e3NamedOpt{"WithReplayedHeaderRequestChannel", tmengine.WithReplayedHeaderRequestChannel(n.replayCh)})
 	}
 	if n.fullOptionSet {
 		lagCh := make(chan tmelink.LagState)
